@@ -218,7 +218,7 @@ def print_assumptions(prop_file):
 
 
 def build_replayer():
-    srcs = coq_sources() + [os.path.join(REPLAY, "main.ml"), os.path.join(REPLAY, "monitors.ml"), os.path.join(REPLAY, "shared.ml"), os.path.join(REPLAY, "smonitors.ml"), os.path.join(REPLAY, "lease.ml"), os.path.join(REPLAY, "eventer.ml"), os.path.join(REPLAY, "rt.ml"), os.path.join(REPLAY, "buffer.ml"),
+    srcs = coq_sources() + [os.path.join(REPLAY, "main.ml"), os.path.join(REPLAY, "monitors.ml"), os.path.join(REPLAY, "shared.ml"), os.path.join(REPLAY, "smonitors.ml"), os.path.join(REPLAY, "lease.ml"), os.path.join(REPLAY, "eventer.ml"), os.path.join(REPLAY, "rt.ml"), os.path.join(REPLAY, "bufrep.ml"),
                             os.path.join(REPLAY, "build.sh")]
     exe = os.path.join(REPLAY, "replay.exe")
     if newer(srcs, exe):
